@@ -18,7 +18,8 @@ TECHNIQUE = ('Hypothesis-generated vectors/tables with duplicates, mixed '
              'types and blanks, sorted in Excel order by construction for '
              'the approximate modes; linear-scan reference, validity '
              'predicate for ties, differential VLOOKUP = INDEX(MATCH) and '
-             'transpose duality')
+             'transpose duality'
+             '; LOOKUP array form = VLOOKUP of the last column; order-independence probe')
 LEVEL_TEXT = ('Exploration over sampled vectors (<=8) and tables (<=6x4) x '
               'lookup values drawn from the array, near misses and other '
               'types x match types -1,0,1 x every result index from -1 to '
